@@ -5,6 +5,11 @@ ROOT = os.path.join(os.path.dirname(os.path.abspath(__file__)), "..")
 props = [json.loads(l) for l in open(os.path.join(ROOT, "properties.jsonl")) if l.strip()]
 
 CLAIMS = {
+    "C17": dict(
+        text="Lean 4 theorems: unix_eq / unix_fits (unix(t) = t/1000 + 946684800, no wrap for any u64), string_branch (RFC 3339 branch exactly up to the last ms of year 9999, plain-number branch beyond; no overflowing arithmetic on either), and the calendar: humantime's civil-from-days algorithm (copied line by line, with its truncating i64 divisions) inverts the independent proleptic-Gregorian daysFromCivil for EVERY day from 2000-01-01 on (civil_inverse_general by per-level omega lemmas for 400/100/4/1-year cycles + a 366-row month table checked in the kernel; civil_inverse_early for the 60 days with negative day count), the printed year is 2000..9999, the day exists in the month incl. 29 February only in leap years (mday_valid_*), and day number, hour, minute, second, millisecond recombine to t + 946684800000 (date_denotes, time_denotes, digit identities). Tie to the code: unix()/string()/Display/dtn_time_now of the real crate vs the model on every day boundary of years 2000, 2001, 2004, 2100, 2400, 9999 ± 1 ms, the u64 boundary set, and random times; the oracle is an independent civil-from-days (Hinnant) in the harness.",
+        note="Trusted: Lean kernel; axioms propext, Classical.choice, Quot.sound; humantime 2.4's formatter is a dependency copied into the model (correspondence-checked), SystemTime/Duration arithmetic below 2^63 s. dtn_time_now with a clock before 2000 is outside the environment assumption.",
+        technique="Lean 4 proof (stagewise omega lemmas for the calendar algorithm, kernel-checked month table) + differential correspondence check",
+        design="§6 C17"),
     "C02": dict(
         text="Lean 4 theorems relating the model of the crate's encoder to an independently written RFC reference (own item tree, own head writer with shifts, field order from RFC 9171 §4.3.1/§4.3.2, catalogue-parameter CRC): primary_layout / canonical_layout (every block = definite array of its RFC fields in order + CRC byte string iff present — unconditional), encode_eq_spec_nocrc (whole-bundle byte equality, unconditional when no block carries a CRC), encode_eq_spec_partial (whole-bundle byte equality for every well-formed bundle GIVEN agreement of the two CRC definitions). The reference is pinned by kernel evaluation to the RFC 9173 A.1 primary/payload hex vectors and to the crate's documented golden bundle (CRC-16 0f56). Tie to the code: for every generated bundle the implementation's bytes are compared with the REFERENCE encoder's bytes through the driver (`spec.enc`), a difference being a property failure with the bundle as replay.",
         note="PARTIAL in one respect: CrcAgree (reflected bit-serial CRC = catalogue-parameter MSB-first CRC for all inputs) is a hypothesis of the whole-bundle theorem for CRC-carrying bundles; it is established by check values and by the crc16/crc32 correspondence ops, not by proof. Trusted: Lean kernel; axioms propext, Classical.choice, Quot.sound; my reading of RFC 9171/8949 in Spec/*.",
